@@ -36,6 +36,23 @@ fn get_string_value(
         .ok_or_else(|| tera::Error::msg(format!("Missing required parameter '{}'", key)))
 }
 
+/// Extract an optional length parameter. A value that is not a non-negative integer is an
+/// error: falling back to the default would silently return more characters than asked for.
+fn get_length(
+    args: &std::collections::HashMap<String, Value>,
+    key: &str,
+) -> Result<Option<usize>, tera::Error> {
+    match args.get(key) {
+        None => Ok(None),
+        Some(v) => v.as_u64().map(|n| Some(n as usize)).ok_or_else(|| {
+            tera::Error::msg(format!(
+                "Parameter '{}' must be a non-negative integer, got {}",
+                key, v
+            ))
+        }),
+    }
+}
+
 /// Register custom Tera functions
 pub fn register_functions(tera: &mut Tera) -> Result<(), ZervError> {
     tera.register_function("sanitize", Box::new(sanitize_function));
@@ -60,7 +77,7 @@ fn sanitize_function(
     // Check for custom parameters
     let separator = args.get("separator").and_then(|v| v.as_str());
     let keep_zeros = args.get("keep_zeros").and_then(|v| v.as_bool());
-    let max_length = args.get("max_length").and_then(|v| v.as_u64());
+    let max_length = get_length(args, "max_length")?;
     let lowercase = args.get("lowercase").and_then(|v| v.as_bool());
 
     let has_custom_params =
@@ -94,7 +111,7 @@ fn sanitize_function(
             separator,
             lowercase.unwrap_or(false),
             keep_zeros.unwrap_or(false),
-            max_length.map(|l| l as usize),
+            max_length,
         );
         sanitizer.sanitize(&value)
     } else {
@@ -110,7 +127,7 @@ fn sanitize_function(
 fn hash_function(args: &std::collections::HashMap<String, Value>) -> Result<Value, tera::Error> {
     let input = get_string_value(args, "value")?;
 
-    let length = args.get("length").and_then(|v| v.as_u64()).unwrap_or(7) as usize;
+    let length = get_length(args, "length")?.unwrap_or(7);
 
     let mut hasher = DefaultHasher::new();
     input.hash(&mut hasher);
@@ -132,7 +149,7 @@ fn hash_int_function(
 ) -> Result<Value, tera::Error> {
     let input = get_string_value(args, "value")?;
 
-    let length = args.get("length").and_then(|v| v.as_u64()).unwrap_or(7) as usize;
+    let length = get_length(args, "length")?.unwrap_or(7);
 
     let allow_leading_zero = args
         .get("allow_leading_zero")
@@ -164,7 +181,7 @@ fn hash_int_function(
 fn prefix_function(args: &std::collections::HashMap<String, Value>) -> Result<Value, tera::Error> {
     let input = get_string_value(args, "value")?;
 
-    let length = args.get("length").and_then(|v| v.as_u64()).unwrap_or(10) as usize;
+    let length = get_length(args, "length")?.unwrap_or(10);
 
     // length counts characters; slicing by bytes panics inside a multi-byte char
     let prefix: String = input.chars().take(length).collect();
